@@ -101,6 +101,10 @@ type Sim struct {
 
 	// hooks
 	OnCrash func(inc *Inc) // called by driver after tasks were killed
+
+	LastFault string // normalised "kind@seam" of the last fault plan that fired
+	FaultTask string            // task at whose seam the plan fired
+	CrashedAt map[string]string // task name -> seam label it was parked at when its node crashed
 }
 
 func NewSim(tape *Tape) *Sim {
@@ -243,6 +247,12 @@ func (s *Sim) Yield(inc *Inc, kind, label string) (inject bool) {
 
 // Go starts fn as a task. The goroutine parks immediately at a "start" seam.
 func (s *Sim) Go(name string, inc *Inc, fg bool, fn func()) *Task {
+	return s.GoC(name, inc, fg, fn, nil)
+}
+
+// GoC is Go with a cleanup function that runs when the task goroutine ends for
+// any reason, including a crash of its node before fn started.
+func (s *Sim) GoC(name string, inc *Inc, fg bool, fn func(), cleanup func()) *Task {
 	t := &Task{Name: name, Inc: inc, FG: fg, wake: make(chan wakeKind)}
 	s.mu.Lock()
 	t.seq = s.nextSeq
@@ -260,6 +270,9 @@ func (s *Sim) Go(name string, inc *Inc, fg bool, fn func()) *Task {
 			t.state = tsDone
 			delete(s.byGid, g)
 			s.mu.Unlock()
+			if cleanup != nil {
+				cleanup()
+			}
 		}()
 		s.Yield(inc, "start", "start")
 		fn()
@@ -369,7 +382,9 @@ func (s *Sim) Drive(drain bool) {
 		t := p[idx]
 		s.last = t
 		wk := wkGo
-		if t.kind != "start" && t.Inc != nil {
+		// fault positions count the seam calls of foreground work (the operations under
+		// test), not those of background goroutines such as invoice watchers
+		if t.kind != "start" && t.Inc != nil && t.FG {
 			key := t.Inc.Node + "|" + t.kind
 			keyAny := t.Inc.Node + "|"
 			s.seamCnt[key]++
@@ -387,6 +402,8 @@ func (s *Sim) Drive(drain bool) {
 				pl.fired = true
 				switch pl.Kind {
 				case "crash":
+					s.LastFault = "crash@" + NormLabel(t.label)
+					s.FaultTask = t.Name
 					s.Stats["fault_crash"]++
 					s.Log("crash", t.Name, "before "+t.label)
 					s.hashStr("crash@" + t.label)
@@ -394,6 +411,8 @@ func (s *Sim) Drive(drain bool) {
 					wk = -1
 				case "db_error":
 					if t.kind == "db" {
+						s.LastFault = "db_error@" + NormLabel(t.label)
+						s.FaultTask = t.Name
 						s.Stats["fault_db_error"]++
 						s.Log("fault", t.Name, "db_error at "+t.label)
 						s.hashStr("dberr@" + t.label)
@@ -429,7 +448,11 @@ func (s *Sim) CrashInc(inc *Inc) {
 		}
 	}
 	s.mu.Unlock()
+	if s.CrashedAt == nil {
+		s.CrashedAt = map[string]string{}
+	}
 	for _, t := range victims {
+		s.CrashedAt[t.Name] = t.label
 		s.mu.Lock()
 		t.state = tsRunning
 		s.mu.Unlock()
@@ -473,4 +496,25 @@ func (s *Sim) Sleep(d time.Duration) {
 	s.Stats["clock_jump"]++
 	time.Sleep(d)
 	synctest.Wait()
+}
+
+// NormLabel strips run-specific ids from a seam label: method name plus state words.
+func NormLabel(label string) string {
+	f := strings.Fields(label)
+	if len(f) == 0 {
+		return ""
+	}
+	out := []string{f[0]}
+	for _, x := range f[1:] {
+		ok := len(x) > 2
+		for _, c := range x {
+			if !((c >= 'A' && c <= 'Z') || c == '-' || c == '>' || c == '_') {
+				ok = false
+			}
+		}
+		if ok {
+			out = append(out, x)
+		}
+	}
+	return strings.Join(out, " ")
 }
